@@ -1,7 +1,752 @@
 /-
-  Helper lemmas about TB.Model.Run (RunC).
+  Helper lemmas about TB.Model.Run (RunC): operations, reads, the single/multi scanners, the product search,
+  the candidate index.
 -/
 import TB.Spec.ExportSpec
-namespace TB
+namespace TB.RC
+/-! ### fault points, read-only extensions of a state -/
 
-end TB
+/-- unfolded form of `NoFutureFaults` (which is defined in `TB.Props.C02`) -/
+def NFF (st : St) : Prop := ∀ idx ∈ st.faults, idx < st.ops.length
+
+/-- `st'` is `st` after some non-mutating operations: same tree, same fault points, a longer log -/
+structure ROExt (st st' : St) : Prop where
+  fs : st'.fs = st.fs
+  faults : st'.faults = st.faults
+  ops : ∃ extra, st'.ops = st.ops ++ extra ∧ ∀ o ∈ extra, o.kind.mutating = false
+
+theorem ROExt.refl (st : St) : ROExt st st := ⟨rfl, rfl, [], by simp, by simp⟩
+
+theorem ROExt.trans {a b c : St} (h1 : ROExt a b) (h2 : ROExt b c) : ROExt a c := by
+  obtain ⟨f1, g1, e1, o1, m1⟩ := h1
+  obtain ⟨f2, g2, e2, o2, m2⟩ := h2
+  refine ⟨f2.trans f1, g2.trans g1, e1 ++ e2, ?_, ?_⟩
+  · rw [o2, o1, List.append_assoc]
+  · intro o ho
+    rcases List.mem_append.1 ho with h | h
+    · exact m1 o h
+    · exact m2 o h
+
+theorem ROExt.nff {a b : St} (h : ROExt a b) (hn : NFF a) : NFF b := by
+  obtain ⟨_, g, e, o, _⟩ := h
+  intro idx hidx
+  rw [g] at hidx
+  have := hn idx hidx
+  rw [o, List.length_append]
+  omega
+
+theorem ROExt.newOps {a b : St} (h : ROExt a b) : ∀ o ∈ newOps a b, o.kind.mutating = false := by
+  obtain ⟨_, _, e, o, m⟩ := h
+  unfold TB.newOps
+  rw [o, List.drop_left]
+  exact m
+
+theorem newOps_self (st : St) : newOps st st = [] := by
+  unfold newOps; simp
+
+/-- an operation whose natural effect leaves the tree alone -/
+theorem St.op_pure_spec {st : St} {k : OpKind} {p : Path} {b : Fs → Bool} {st1 : St} {ok : Bool}
+    (h : st.op k p (fun fs => (fs, b fs)) = (st1, ok)) :
+    st1.fs = st.fs ∧ st1.faults = st.faults ∧ st1.ops = st.ops ++ [⟨k, p, ok⟩] ∧ (NFF st → ok = b st.fs) := by
+  unfold St.op at h
+  split at h
+  · rename_i hc
+    obtain ⟨rfl, rfl⟩ := Prod.mk.inj h
+    refine ⟨rfl, rfl, rfl, ?_⟩
+    intro hn
+    have := hn _ (List.contains_iff_mem.1 hc)
+    omega
+  · obtain ⟨rfl, rfl⟩ := Prod.mk.inj h
+    exact ⟨rfl, rfl, rfl, fun _ => rfl⟩
+
+theorem St.op_pure_ext {st : St} {k : OpKind} {p : Path} {b : Fs → Bool} {st1 : St} {ok : Bool}
+    (hk : k.mutating = false)
+    (h : st.op k p (fun fs => (fs, b fs)) = (st1, ok)) : ROExt st st1 := by
+  obtain ⟨h1, h2, h3, _⟩ := St.op_pure_spec h
+  refine ⟨h1, h2, [⟨k, p, ok⟩], h3, ?_⟩
+  intro o ho
+  rw [List.mem_singleton] at ho
+  subst ho
+  exact hk
+
+/-! ### `read_bytes` -/
+
+theorem readAt_zero (fs : Fs) (i off : Nat) : fs.readAt i off 0 = [] := by
+  unfold Fs.readAt; simp
+
+theorem readBytes_spec (st : St) (p : Path) (len off : Nat) :
+    ROExt st (st.readBytes p len off).1 ∧
+    (∀ bytes i, (st.readBytes p len off).2 = some bytes → st.fs.look p = .file i →
+      bytes = st.fs.readAt i off len) ∧
+    (NFF st → ∀ i, st.fs.look p = .file i → (st.readBytes p len off).2 = some (st.fs.readAt i off len)) := by
+  unfold St.readBytes
+  split
+  rename_i st1 ok1 h1
+  have e1 := St.op_pure_ext (by rfl) h1
+  have s1 := St.op_pure_spec h1
+  split
+  · rename_i hok1
+    refine ⟨e1, by simp, ?_⟩
+    intro hn i hi
+    have := s1.2.2.2 hn
+    rw [hi] at this
+    simp [this] at hok1
+  · split
+    rename_i st2 ok2 h2
+    have e2 := e1.trans (St.op_pure_ext (by rfl) h2)
+    have s2 := St.op_pure_spec h2
+    split
+    · rename_i hok2
+      refine ⟨e2, by simp, ?_⟩
+      intro hn i hi
+      have := s2.2.2.2 (e1.nff hn)
+      simp [this] at hok2
+    · split
+      · rename_i hlen
+        have hlen : len = 0 := by simpa using hlen
+        subst hlen
+        refine ⟨e2, ?_, ?_⟩
+        · intro bytes i hb _
+          simp at hb
+          rw [readAt_zero]; exact hb
+        · intro _ i _
+          rw [readAt_zero]
+      · split
+        rename_i st3 ok3 h3
+        have e3 := e2.trans (St.op_pure_ext (by rfl) h3)
+        have s3 := St.op_pure_spec h3
+        split
+        · rename_i hok3
+          refine ⟨e3, by simp, ?_⟩
+          intro hn i hi
+          have := s3.2.2.2 (e2.nff hn)
+          rw [e2.fs, hi] at this
+          simp [this] at hok3
+        · split
+          · rename_i i hi
+            rw [e3.fs] at hi
+            refine ⟨e3, ?_, ?_⟩
+            · intro bytes j hb hj
+              rw [hi] at hj
+              cases hj
+              simp at hb
+              rw [← hb, e3.fs]
+            · intro _ j hj
+              rw [hi] at hj
+              cases hj
+              rw [e3.fs]
+          · rename_i hno
+            refine ⟨e3, by simp, ?_⟩
+            intro _ i hi
+            rw [e3.fs] at hno
+            exact absurd hi (hno i)
+
+theorem readBytes_ext (st : St) (p : Path) (len off : Nat) : ROExt st (st.readBytes p len off).1 :=
+  (readBytes_spec st p len off).1
+
+theorem readBytes_eq {st st1 : St} {p : Path} {len off : Nat} {bytes : Bytes}
+    (h : st.readBytes p len off = (st1, some bytes)) {i : Nat} (hi : st.fs.look p = .file i) :
+    bytes = st.fs.readAt i off len :=
+  (readBytes_spec st p len off).2.1 bytes i (by rw [h]) hi
+
+theorem readBytes_nff {st : St} (hn : NFF st) {p : Path} {i : Nat} (hi : st.fs.look p = .file i) (len off : Nat) :
+    st.readBytes p len off = ((st.readBytes p len off).1, some (st.fs.readAt i off len)) := by
+  have := (readBytes_spec st p len off).2.2 hn i hi
+  rw [← this]
+
+/-! ### `firstM` in `Option`, the writer -/
+
+theorem firstM_option_some {α β : Type} {f : α → Option β} {l : List α} {r : β}
+    (h : l.firstM f = some r) : ∃ c ∈ l, f c = some r := by
+  induction l with
+  | nil => simp [List.firstM] at h
+  | cons a as ih =>
+    cases ha : f a with
+    | some b =>
+      simp [List.firstM, ha] at h
+      exact ⟨a, by simp, by rw [ha, h]⟩
+    | none =>
+      simp [List.firstM, ha] at h
+      obtain ⟨c, hc, hfc⟩ := ih h
+      exact ⟨c, by simp [hc], hfc⟩
+
+theorem firstM_option_isSome {α β : Type} {f : α → Option β} {l : List α} {c : α}
+    (hc : c ∈ l) (hf : (f c).isSome = true) : (l.firstM f).isSome = true := by
+  induction l with
+  | nil => cases hc
+  | cons a as ih =>
+    cases ha : f a with
+    | some b => simp [List.firstM, ha]
+    | none =>
+      simp [List.firstM, ha]
+      rcases List.mem_cons.1 hc with rfl | h
+      · rw [ha] at hf; cases hf
+      · simpa using ih h
+
+theorem firstM_option_head {α β : Type} {f : α → Option β} {l : List α} {c : α} {r : β}
+    (hc : l.head? = some c) (hf : f c = some r) : l.firstM f = some r := by
+  cases l with
+  | nil => cases hc
+  | cons a as =>
+    simp at hc; subst hc
+    simp [List.firstM, hf]
+
+theorem writeSegs_ne_notFound (st : St) (pairs : List (WSeg × Option Path)) (buf : Bytes) (start : Nat) :
+    (writeSegs st pairs buf start).2 ≠ .notFound := by
+  induction pairs generalizing st start with
+  | nil => simp [writeSegs]
+  | cons x rest ih =>
+    obtain ⟨seg, src⟩ := x
+    unfold writeSegs
+    simp only
+    split
+    · exact ih _ _
+    split
+    · exact ih _ _
+    split
+    · simp
+    split
+    · simp
+    split
+    · split
+      · simp
+      split
+      · simp
+      split
+      · simp
+      split
+      · simp
+      · exact ih _ _
+    · simp
+
+
+/-! ### single scan, preload of one segment -/
+
+theorem scanSingle_ext (H : Bytes → Bytes) (hash : Bytes) (seg : WSeg) (st : St) (paths : List Path) :
+    ROExt st (scanSingle H hash seg st paths).1 := by
+  induction paths generalizing st with
+  | nil => exact ROExt.refl _
+  | cons p ps ih =>
+    simp only [scanSingle]
+    have e := readBytes_ext st p seg.len seg.off
+    split
+    · rename_i st1 h; rw [h] at e; exact e
+    · rename_i st1 bytes h; rw [h] at e
+      split
+      · exact e
+      · exact e.trans (ih st1)
+
+theorem scanSingle_none {H : Bytes → Bytes} {hash : Bytes} {seg : WSeg} {st st' : St} {paths : List Path}
+    (h : scanSingle H hash seg st paths = (st', .ok none)) :
+    ∀ p ∈ paths, ∀ i, st.fs.look p = .file i → H (st.fs.readAt i seg.off seg.len) ≠ hash := by
+  induction paths generalizing st with
+  | nil => intro p hp; cases hp
+  | cons q ps ih =>
+    simp only [scanSingle] at h
+    split at h
+    · cases h
+    · rename_i st1 bytes hr
+      split at h
+      · cases h
+      · rename_i hne
+        have e := readBytes_ext st q seg.len seg.off
+        rw [hr] at e
+        intro p hp i hi
+        rcases List.mem_cons.1 hp with rfl | hp
+        · have := readBytes_eq hr hi
+          rw [← this]
+          intro hh
+          exact hne (by simp [hh])
+        · have := ih h p hp i (by rw [e.fs]; exact hi)
+          rw [e.fs] at this
+          exact this
+
+theorem preloadSeg_ext (seg : WSeg) (st : St) (paths : List Path) (acc : List (Option Path × Bytes)) :
+    ROExt st (preloadSeg seg st paths acc).1 := by
+  induction paths generalizing st acc with
+  | nil => exact ROExt.refl _
+  | cons p ps ih =>
+    simp only [preloadSeg]
+    have e := readBytes_ext st p seg.len seg.off
+    split
+    · rename_i st1 h; rw [h] at e; exact e
+    · rename_i st1 bytes h; rw [h] at e
+      split
+      · exact e.trans (ih st1 _)
+      · exact e.trans (ih st1 _)
+
+theorem preloadSeg_spec {seg : WSeg} {st st' : St} {paths : List Path} {acc r : List (Option Path × Bytes)}
+    (h : preloadSeg seg st paths acc = (st', .ok r)) :
+    (∃ extra, r = acc ++ extra) ∧
+    ∀ p ∈ paths, ∀ i, st.fs.look p = .file i → ∃ x ∈ r, x.2 = st.fs.readAt i seg.off seg.len := by
+  induction paths generalizing st acc with
+  | nil =>
+    simp only [preloadSeg] at h
+    obtain ⟨_, h2⟩ := Prod.mk.inj h
+    cases h2
+    exact ⟨⟨[], by simp⟩, fun p hp => by cases hp⟩
+  | cons q ps ih =>
+    simp only [preloadSeg] at h
+    split at h
+    · cases h
+    · rename_i st1 bytes hr
+      have e := readBytes_ext st q seg.len seg.off
+      rw [hr] at e
+      split at h
+      · rename_i hany
+        obtain ⟨⟨extra, hex⟩, hall⟩ := ih h
+        refine ⟨⟨extra, hex⟩, ?_⟩
+        intro p hp i hi
+        rcases List.mem_cons.1 hp with rfl | hp
+        · have hb := readBytes_eq hr hi
+          obtain ⟨x, hx, hxb⟩ := List.any_eq_true.1 hany
+          refine ⟨x, ?_, ?_⟩
+          · rw [hex]; exact List.mem_append_left _ hx
+          · rw [← hb]; simpa using hxb
+        · have := hall p hp i (by rw [e.fs]; exact hi)
+          rw [e.fs] at this
+          exact this
+      · obtain ⟨⟨extra, hex⟩, hall⟩ := ih h
+        refine ⟨⟨(some q, bytes) :: extra, by rw [hex]; simp⟩, ?_⟩
+        intro p hp i hi
+        rcases List.mem_cons.1 hp with rfl | hp
+        · have hb := readBytes_eq hr hi
+          refine ⟨(some p, bytes), ?_, hb⟩
+          rw [hex]; simp
+        · have := hall p hp i (by rw [e.fs]; exact hi)
+          rw [e.fs] at this
+          exact this
+
+theorem preloadSeg_ok {seg : WSeg} {st : St} (hn : NFF st) {paths : List Path}
+    (hr : ∀ p ∈ paths, ∃ i, st.fs.look p = .file i) (acc : List (Option Path × Bytes)) :
+    ∃ r, (preloadSeg seg st paths acc).2 = .ok r := by
+  induction paths generalizing st acc with
+  | nil => exact ⟨acc, rfl⟩
+  | cons q ps ih =>
+    obtain ⟨i, hi⟩ := hr q (by simp)
+    have e := readBytes_ext st q seg.len seg.off
+    have hrest : ∀ p ∈ ps, ∃ i, (st.readBytes q seg.len seg.off).1.fs.look p = .file i := by
+      intro p hp; rw [e.fs]; exact hr p (by simp [hp])
+    simp only [preloadSeg]
+    rw [readBytes_nff hn hi]
+    simp only
+    split
+    · exact ih (e.nff hn) hrest _
+    · exact ih (e.nff hn) hrest _
+
+theorem preloadSeg_head {seg : WSeg} {st st' : St} {p : Path} {ps : List Path} {r : List (Option Path × Bytes)}
+    {i : Nat} (hi : st.fs.look p = .file i)
+    (h : preloadSeg seg st (p :: ps) [] = (st', .ok r)) :
+    r.head? = some (some p, st.fs.readAt i seg.off seg.len) := by
+  simp only [preloadSeg] at h
+  split at h
+  · cases h
+  · rename_i st1 bytes hr
+    have hb := readBytes_eq hr hi
+    simp only [List.any_nil, Bool.false_eq_true, if_false, List.nil_append] at h
+    obtain ⟨⟨extra, hex⟩, _⟩ := preloadSeg_spec h
+    rw [hex, hb]; rfl
+
+
+/-! ### preload -/
+
+/-- what `preload` guarantees about the candidate list of one segment -/
+structure CandOK (fs : Fs) (seg : WSeg) (cands : List (Option Path × Bytes)) : Prop where
+  pad : seg.ent.isPad = true → cands = [(none, List.replicate seg.len 0)]
+  empty : seg.ent.isPad = false → seg.ent.searches = none → cands = [(none, [])]
+  all : seg.ent.isPad = false → ∀ paths, seg.ent.searches = some paths →
+    ∀ p ∈ paths, ∀ i, fs.look p = .file i → ∃ x ∈ cands, x.2 = fs.readAt i seg.off seg.len
+  head : seg.ent.isPad = false → ∀ p ps i, seg.ent.searches = some (p :: ps) → fs.look p = .file i →
+    cands.head? = some (some p, fs.readAt i seg.off seg.len)
+
+inductive All2 {α β : Type} (R : α → β → Prop) : List α → List β → Prop
+  | nil : All2 R [] []
+  | cons {a b l1 l2} : R a b → All2 R l1 l2 → All2 R (a :: l1) (b :: l2)
+
+theorem preload_ext (st : St) (segs : List WSeg) : ROExt st (preload st segs).1 := by
+  induction segs generalizing st with
+  | nil => exact ROExt.refl _
+  | cons seg rest ih =>
+    simp only [preload]
+    split
+    · have := ih st
+      split <;> (rename_i h; rw [h] at this; exact this)
+    · split
+      · have := ih st
+        split <;> (rename_i h; rw [h] at this; exact this)
+      · rename_i paths _
+        have e1 := preloadSeg_ext seg st paths []
+        split
+        · rename_i st1 r h1
+          rw [h1] at e1
+          have e2 := ih st1
+          split <;> (rename_i h; rw [h] at e2; exact e1.trans e2)
+        · rename_i h; rw [h] at e1; exact e1
+        · rename_i h; rw [h] at e1; exact e1
+
+theorem preload_spec {st st' : St} {segs : List WSeg} {loaded : List (List (Option Path × Bytes))}
+    (h : preload st segs = (st', .ok loaded)) : All2 (CandOK st.fs) segs loaded := by
+  induction segs generalizing st st' loaded with
+  | nil =>
+    simp only [preload] at h
+    obtain ⟨_, h2⟩ := Prod.mk.inj h
+    cases h2
+    exact .nil
+  | cons seg rest ih =>
+    simp only [preload] at h
+    split at h
+    · rename_i hpad
+      split at h
+      · rename_i st1 r hr
+        obtain ⟨_, h2⟩ := Prod.mk.inj h
+        cases h2
+        refine .cons ⟨fun _ => rfl, ?_, ?_, ?_⟩ (ih hr) <;> (intro hp; rw [hpad] at hp; cases hp)
+      · cases h
+      · cases h
+    · rename_i hpad
+      have hpad : seg.ent.isPad = false := by simpa using hpad
+      split at h
+      · rename_i hs
+        split at h
+        · rename_i st1 r hr
+          obtain ⟨_, h2⟩ := Prod.mk.inj h
+          cases h2
+          refine .cons ⟨?_, fun _ _ => rfl, ?_, ?_⟩ (ih hr)
+          · intro hp; rw [hpad] at hp; cases hp
+          · intro _ paths hp; rw [hs] at hp; cases hp
+          · intro _ p ps i hp; rw [hs] at hp; cases hp
+        · cases h
+        · cases h
+      · rename_i paths hs
+        split at h
+        · rename_i st1 r h1
+          have e1 := preloadSeg_ext seg st paths []
+          rw [h1] at e1
+          split at h
+          · rename_i st2 rs hr
+            obtain ⟨_, h2⟩ := Prod.mk.inj h
+            cases h2
+            have := ih hr
+            rw [e1.fs] at this
+            refine .cons ⟨?_, ?_, ?_, ?_⟩ this
+            · intro hp; rw [hpad] at hp; cases hp
+            · intro _ hp; rw [hs] at hp; cases hp
+            · intro _ paths' hp
+              rw [hs] at hp; cases hp
+              exact (preloadSeg_spec h1).2
+            · intro _ p ps i hp hi
+              rw [hs] at hp; cases hp
+              exact preloadSeg_head hi h1
+          · cases h
+          · cases h
+        · cases h
+        · cases h
+
+theorem preload_ok {st : St} (hn : NFF st) {segs : List WSeg}
+    (hr : ∀ seg ∈ segs, ∀ paths, seg.ent.searches = some paths → ∀ p ∈ paths, ∃ i, st.fs.look p = .file i) :
+    ∃ loaded, (preload st segs).2 = .ok loaded := by
+  induction segs generalizing st with
+  | nil => exact ⟨[], rfl⟩
+  | cons seg rest ih =>
+    have hrest : ∀ s ∈ rest, ∀ paths, s.ent.searches = some paths → ∀ p ∈ paths, ∃ i, st.fs.look p = .file i :=
+      fun s hs => hr s (by simp [hs])
+    simp only [preload]
+    split
+    · obtain ⟨l, hl⟩ := ih hn hrest
+      split <;> (rename_i h; rw [h] at hl; first | exact ⟨_, rfl⟩ | cases hl)
+    · split
+      · obtain ⟨l, hl⟩ := ih hn hrest
+        split <;> (rename_i h; rw [h] at hl; first | exact ⟨_, rfl⟩ | cases hl)
+      · rename_i paths hs
+        obtain ⟨r, hr1⟩ := preloadSeg_ok (seg := seg) hn (hr seg (by simp) paths hs) []
+        have e1 := preloadSeg_ext seg st paths []
+        split
+        · rename_i st1 r' h1
+          rw [h1] at e1
+          obtain ⟨l, hl⟩ := ih (e1.nff hn) (by rw [e1.fs]; exact hrest)
+          split <;> (rename_i h; rw [h] at hl; first | exact ⟨_, rfl⟩ | cases hl)
+        · rename_i h; rw [h] at hr1; cases hr1
+        · rename_i h; rw [h] at hr1; cases hr1
+
+theorem forall₂_getElem? {α β : Type} {R : α → β → Prop} {l1 : List α} {l2 : List β}
+    (h : All2 R l1 l2) :
+    l1.length = l2.length ∧ ∀ (k : Nat) a b, l1[k]? = some a → l2[k]? = some b → R a b := by
+  induction h with
+  | nil => exact ⟨rfl, by simp⟩
+  | cons hab _ ih =>
+    refine ⟨by simp [ih.1], ?_⟩
+    intro k a b ha hb
+    cases k with
+    | zero => simp at ha hb; subst ha; subst hb; exact hab
+    | succ k => simp at ha hb; exact ih.2 k a b ha hb
+
+
+/-! ### candidate orders (`validSearches`) -/
+
+theorem similarity_eq_zero {p partialT fullT : Path} : similarity p partialT fullT = 0 ↔ p = fullT := by
+  unfold similarity
+  constructor
+  · intro h
+    split at h
+    · rename_i h'; simpa using h'
+    · split at h
+      · cases h
+      · split at h <;> cases h
+  · intro h; simp [h]
+
+theorem sorted_head_le {α : Type} (f : α → Nat) (a : α) (l : List α)
+    (h : (List.zip (a :: l) ((a :: l).drop 1)).all (fun pq => decide (f pq.1 ≤ f pq.2)) = true) :
+    ∀ x ∈ a :: l, f a ≤ f x := by
+  induction l generalizing a with
+  | nil => intro x hx; simp at hx; subst hx; exact Nat.le_refl _
+  | cons b l ih =>
+    simp only [List.drop_one, List.tail_cons, List.zip_cons_cons, List.all_cons, Bool.and_eq_true,
+      decide_eq_true_eq] at h
+    intro x hx
+    rcases List.mem_cons.1 hx with rfl | hx
+    · exact Nat.le_refl _
+    · have := ih b (by simpa using h.2) x hx
+      omega
+
+theorem validSearches_mem {e : TEntry} {m : List (Path × Nat)} {obs : List Path}
+    (h : validSearches e m obs = true) :
+    ∀ x ∈ m, ∃ p ∈ obs, (∃ y ∈ m, y.1 = p ∧ y.2 = x.2) ∧
+      similarity p e.partialTarget e.fullTarget ≤ similarity x.1 e.partialTarget e.fullTarget := by
+  unfold validSearches at h
+  simp only [Bool.and_eq_true] at h
+  obtain ⟨⟨⟨⟨_, _⟩, _⟩, h4⟩, _⟩ := h
+  intro x hx
+  have := List.all_eq_true.1 h4 x hx
+  obtain ⟨p, hp, hpp⟩ := List.any_eq_true.1 this
+  simp only [Bool.and_eq_true, decide_eq_true_eq, beq_iff_eq] at hpp
+  obtain ⟨hino, hsim⟩ := hpp
+  refine ⟨p, hp, ?_, hsim⟩
+  rw [Option.map_eq_some_iff] at hino
+  obtain ⟨y, hy, hy2⟩ := hino
+  have hm := List.mem_of_find?_eq_some hy
+  have hp := List.find?_some hy
+  exact ⟨y, hm, by simpa using hp, hy2⟩
+
+theorem validSearches_head {e : TEntry} {m : List (Path × Nat)} {obs : List Path}
+    (h : validSearches e m obs = true) (a : Path) (l : List Path) (ho : obs = a :: l) :
+    ∀ x ∈ obs, similarity a e.partialTarget e.fullTarget ≤ similarity x e.partialTarget e.fullTarget := by
+  unfold validSearches at h
+  simp only [Bool.and_eq_true] at h
+  obtain ⟨_, h5⟩ := h
+  subst ho
+  exact sorted_head_le (fun p => similarity p e.partialTarget e.fullTarget) a l h5
+
+
+/-! ### the file cache, `addByDirectory` -/
+
+/-- path `p` is registered in the cache under length `l` -/
+def Reg (c : Cache) (l : Nat) (p : Path) : Prop := ∃ m, cacheGet c l = some m ∧ ∃ j, (p, j) ∈ m
+
+theorem cacheGet_cons (l' : Nat) (m : List (Path × Nat)) (c : Cache) (l : Nat) :
+    cacheGet ((l', m) :: c) l = if l' = l then some m else cacheGet c l := by
+  unfold cacheGet
+  by_cases h : l' = l
+  · simp [h]
+  · simp [h]
+
+theorem cacheGet_filter_ne {l' l : Nat} (h : l' ≠ l) (c : Cache) :
+    cacheGet (c.filter (fun e => e.1 != l')) l = cacheGet c l := by
+  unfold cacheGet
+  rw [List.find?_filter]
+  congr 2
+  funext e
+  by_cases he : e.1 = l
+  · have : e.1 ≠ l' := by omega
+    simp [he]
+    omega
+  · simp [he]
+
+theorem cacheGet_insert (c : Cache) (l' : Nat) (p' : Path) (i' : Nat) (l : Nat) :
+    cacheGet (cacheInsert c l' p' i') l =
+      if l' = l then some ((p', i') :: ((cacheGet c l).getD []).filter (fun e => e.1 != p')) else cacheGet c l := by
+  unfold cacheInsert
+  cases hc : cacheGet c l' with
+  | none =>
+    simp only [cacheGet_cons]
+    split
+    · rename_i h; subst h; simp [hc]
+    · rfl
+  | some m =>
+    simp only [cacheGet_cons]
+    split
+    · rename_i h; subst h; simp [hc]
+    · rename_i h; exact cacheGet_filter_ne h c
+
+theorem reg_insert {c : Cache} {l : Nat} {p : Path} (h : Reg c l p) (l' : Nat) (p' : Path) (i' : Nat) :
+    Reg (cacheInsert c l' p' i') l p := by
+  obtain ⟨m, hm, j, hj⟩ := h
+  unfold Reg
+  rw [cacheGet_insert]
+  split
+  · refine ⟨_, rfl, ?_⟩
+    by_cases hp : p = p'
+    · exact ⟨i', by simp [hp]⟩
+    · refine ⟨j, List.mem_cons_of_mem _ ?_⟩
+      rw [hm]
+      simp only [Option.getD_some]
+      exact List.mem_filter.2 ⟨hj, by simpa using hp⟩
+  · exact ⟨m, hm, j, hj⟩
+
+theorem reg_insert_self (c : Cache) (l : Nat) (p : Path) (i : Nat) : Reg (cacheInsert c l p i) l p := by
+  unfold Reg
+  rw [cacheGet_insert]
+  simp only [if_true]
+  exact ⟨_, rfl, i, by simp⟩
+
+/-- one step of `addByDirectory` -/
+def addStep (fs : Fs) (dir : Path) (lengths : List Nat) (c : Cache) (e : Path × Nat) : Cache :=
+  let len := (fs.content e.2).length
+  if dir.length ≤ e.1.length && e.1.take dir.length == dir && e.1 != dir && lengths.contains len
+  then cacheInsert c len e.1 e.2 else c
+
+theorem addByDirectory_eq (fs : Fs) (c : Cache) (dir : Path) (lengths : List Nat) :
+    addByDirectory fs c dir lengths = fs.files.foldl (addStep fs dir lengths) c := rfl
+
+theorem reg_addStep {c : Cache} {l : Nat} {p : Path} (h : Reg c l p) (fs : Fs) (dir : Path) (lengths : List Nat)
+    (e : Path × Nat) : Reg (addStep fs dir lengths c e) l p := by
+  unfold addStep
+  simp only
+  split
+  · exact reg_insert h _ _ _
+  · exact h
+
+theorem reg_foldl {c : Cache} {l : Nat} {p : Path} (h : Reg c l p) (fs : Fs) (dir : Path) (lengths : List Nat)
+    (files : List (Path × Nat)) : Reg (files.foldl (addStep fs dir lengths) c) l p := by
+  induction files generalizing c with
+  | nil => exact h
+  | cons e es ih => exact ih (reg_addStep h fs dir lengths e)
+
+theorem foldl_registers (fs : Fs) (dir : Path) (lengths : List Nat) (files : List (Path × Nat)) (c : Cache)
+    (p : Path) (i : Nat) (hmem : (p, i) ∈ files)
+    (hdir : dir.length < p.length ∧ p.take dir.length = dir)
+    (hlen : lengths.contains (fs.content i).length = true) :
+    Reg (files.foldl (addStep fs dir lengths) c) (fs.content i).length p := by
+  induction files generalizing c with
+  | nil => cases hmem
+  | cons e es ih =>
+    rcases List.mem_cons.1 hmem with rfl | h
+    · rw [List.foldl_cons]
+      apply reg_foldl
+      unfold addStep
+      have hne : p ≠ dir := by
+        intro h; rw [h] at hdir; omega
+      have : (dir.length ≤ p.length && p.take dir.length == dir && p != dir &&
+          lengths.contains (fs.content i).length) = true := by
+        simp only [Bool.and_eq_true, decide_eq_true_eq, bne_iff_ne, beq_iff_eq, ne_eq]
+        exact ⟨⟨⟨by omega, hdir.2⟩, hne⟩, hlen⟩
+      simp only [this, if_true]
+      exact reg_insert_self _ _ _ _
+    · exact ih _ h
+
+
+/-! ### choosing one candidate per segment -/
+
+theorem picks_of_cands (parts : List Bytes) (loaded : List (List (Option Path × Bytes)))
+    (hlen : parts.length = loaded.length)
+    (h : ∀ (k : Nat) part cands, parts[k]? = some part → loaded[k]? = some cands → ∃ x ∈ cands, x.2 = part) :
+    ∃ picks : List (Option Path × Bytes), picks.length = loaded.length ∧
+      (∀ k (hk : k < picks.length) (hl : k < loaded.length), picks[k] ∈ loaded[k]) ∧
+      picks.flatMap (·.2) = parts.flatten := by
+  induction parts generalizing loaded with
+  | nil =>
+    cases loaded with
+    | nil => exact ⟨[], rfl, fun k hk => (by cases hk), rfl⟩
+    | cons _ _ => simp at hlen
+  | cons part parts ih =>
+    cases loaded with
+    | nil => simp at hlen
+    | cons cands loaded =>
+      obtain ⟨x, hx, hxp⟩ := h 0 part cands (by simp) (by simp)
+      obtain ⟨picks, hpl, hpm, hpf⟩ := ih loaded (by simpa using hlen) (fun k part cands hp hc =>
+        h (k + 1) part cands (by simpa using hp) (by simpa using hc))
+      refine ⟨x :: picks, by simp [hpl], ?_, by simp [hpf, hxp]⟩
+      intro k hk hl
+      cases k with
+      | zero => simpa using hx
+      | succ k =>
+        simp only [List.getElem_cons_succ]
+        exact hpm k (by simpa using hk) (by simpa using hl)
+
+theorem cand_supplies {fs : Fs} {seg : WSeg} {cands : List (Option Path × Bytes)} {part : Bytes}
+    (hc : CandOK fs seg cands)
+    (hreadable : ∀ paths, seg.ent.searches = some paths → ∀ p ∈ paths, ∃ i, fs.look p = .file i)
+    (hne : seg.ent.searches ≠ some [])
+    (hav : (seg.ent.isPad = true → part = List.replicate seg.len 0) ∧
+        (seg.ent.isPad = false → seg.len = 0 → part = []) ∧
+        (seg.ent.isPad = false → seg.len ≠ 0 →
+          ∃ paths p i, seg.ent.searches = some paths ∧ p ∈ paths ∧ fs.look p = .file i
+            ∧ part = fs.readAt i seg.off seg.len)) :
+    ∃ x ∈ cands, x.2 = part := by
+  cases hpad : seg.ent.isPad with
+  | true =>
+    rw [hc.pad hpad, hav.1 hpad]
+    exact ⟨_, List.mem_singleton.2 rfl, rfl⟩
+  | false =>
+    by_cases hl : seg.len = 0
+    · rw [hav.2.1 hpad hl]
+      cases hs : seg.ent.searches with
+      | none => rw [hc.empty hpad hs]; exact ⟨_, List.mem_singleton.2 rfl, rfl⟩
+      | some paths =>
+        cases paths with
+        | nil => exact absurd hs hne
+        | cons p ps =>
+          obtain ⟨i, hi⟩ := hreadable _ hs p (by simp)
+          obtain ⟨x, hx, hxb⟩ := hc.all hpad _ hs p (by simp) i hi
+          rw [hl, readAt_zero] at hxb
+          exact ⟨x, hx, hxb⟩
+    · obtain ⟨paths, p, i, hs, hp, hi, hpart⟩ := hav.2.2 hpad hl
+      obtain ⟨x, hx, hxb⟩ := hc.all hpad _ hs p hp i hi
+      exact ⟨x, hx, by rw [hxb, hpart]⟩
+
+
+/-! ### the export tree as first candidate -/
+
+theorem mapM_option_some {α β : Type} {f : α → Option β} {l : List α} {ys : List β}
+    (h : l.mapM f = some ys) (d : β) : ys = l.map (fun a => (f a).getD d) := by
+  induction l generalizing ys with
+  | nil => simp at h; simp [h]
+  | cons a l ih =>
+    rw [List.mapM_cons] at h
+    cases ha : f a with
+    | none => simp [ha] at h
+    | some b =>
+      cases hl : l.mapM f with
+      | none => simp [ha, hl] at h
+      | some bs =>
+        simp [ha, hl] at h
+        rw [← h, ih hl]
+        simp [ha]
+
+theorem mem_zip_map_self {α β : Type} (g : α → β) (l : List α) : ∀ x ∈ List.zip l (l.map g), x.2 = g x.1 := by
+  induction l with
+  | nil => intro x hx; cases hx
+  | cons a l ih =>
+    intro x hx
+    simp only [List.map_cons, List.zip_cons_cons, List.mem_cons] at hx
+    rcases hx with rfl | hx
+    · rfl
+    · exact ih x hx
+
+/-- the candidate the export tree itself supplies for a segment -/
+def firstOf (fs : Fs) (s : WSeg) : Option Path × Bytes :=
+  (if s.ent.isPad then none else some s.ent.fullTarget, (segBytesIn fs s).getD [])
+
+theorem cand_head {fs : Fs} {seg : WSeg} {cands : List (Option Path × Bytes)} (hc : CandOK fs seg cands)
+    (hfirst : seg.ent.isPad = false →
+      ∃ rest i, seg.ent.searches = some (seg.ent.fullTarget :: rest) ∧ fs.look seg.ent.fullTarget = .file i
+        ∧ seg.off + seg.len ≤ (fs.content i).length) :
+    cands.head? = some (firstOf fs seg) := by
+  unfold firstOf segBytesIn
+  cases hpad : seg.ent.isPad with
+  | true => rw [hc.pad hpad]; simp
+  | false =>
+    obtain ⟨rest, i, hs, hi, hle⟩ := hfirst hpad
+    rw [hc.head hpad _ _ i hs hi]
+    simp [hi, hle]
+
+end TB.RC
